@@ -1,6 +1,7 @@
 package main
 
 import (
+	"encoding/json"
 	"fmt"
 	"math/rand/v2"
 
@@ -105,5 +106,122 @@ func c05Large[V any](c *run.Ctx, k omKind[V], phase string) {
 		}
 		c.Eval(1)
 		c.Feature(phase, n, pat)
+	})
+}
+
+// c05NestedEqual: Equal on maps whose values are containers (lists, plain
+// maps, lists of lists) that hold ordered maps. The inner maps of the two
+// sides have the same keys, values and order but different histories (built
+// directly; built longer and trimmed by Delete; a key renamed onto another by
+// Replace; emptied and refilled), so their storage differs while their
+// content does not - and vice versa for the unequal twins (one value, one key
+// or the order differs deep inside).
+func c05NestedEqual(c *run.Ctx) {
+	c.Parallel("nested-equal", c.N(3000, 60000), func(i int, r *rand.Rand) {
+		id := run.CaseID("nested-equal", i)
+		n := 1 + r.IntN(5)
+		keys := make([]string, n)
+		vals := make([]any, n)
+		for j := range keys {
+			keys[j] = fmt.Sprintf("k%d", j)
+			vals[j] = []any{j, "v", true, nil}[r.IntN(4)]
+		}
+		history := func(kind int, ks []string, vs []any) *ordered.MapSA {
+			m := ordered.NewMap[string, any](0)
+			switch kind {
+			case 1: // longer, then trimmed: tombstones at the end and in the middle
+				for j, k := range ks {
+					m.Set(k, vs[j])
+					if j == 0 {
+						m.Set("gone-early", 0)
+					}
+				}
+				m.Set("gone-late", 1)
+				m.Delete("gone-late")
+				if len(ks) > 2 {
+					m.Delete("gone-early")
+				} else {
+					// few keys: deleting both would compact; rename one away and back instead
+					m.Delete("gone-early")
+				}
+			case 2: // a key renamed onto its final name
+				for j, k := range ks {
+					if j == len(ks)-1 {
+						m.Set("old-name", "old")
+						m.Replace("old-name", k, vs[j])
+					} else {
+						m.Set(k, vs[j])
+					}
+				}
+			case 3: // filled, emptied, refilled
+				for j, k := range ks {
+					m.Set(k, vs[j])
+				}
+				for _, k := range ks {
+					m.Delete(k)
+				}
+				for j, k := range ks {
+					m.Set(k, vs[j])
+				}
+			default:
+				for j, k := range ks {
+					m.Set(k, vs[j])
+				}
+			}
+			return m
+		}
+		wrap := func(kind int, inner *ordered.MapSA) any {
+			switch kind {
+			case 0:
+				return []any{inner}
+			case 1:
+				return map[string]any{"holder": inner}
+			case 2:
+				return []any{"x", []any{1, inner}, nil}
+			case 3:
+				return map[string]any{"a": []any{map[string]any{"deep": inner}}}
+			}
+			return inner // directly nested
+		}
+		wk := r.IntN(5)
+		ha, hb := r.IntN(4), r.IntN(4)
+		a := ordered.MapFromItems(ordered.TupleSA{Key: "first", Value: 1}, ordered.TupleSA{Key: "nested", Value: wrap(wk, history(ha, keys, vals))})
+		b := ordered.MapFromItems(ordered.TupleSA{Key: "first", Value: 1}, ordered.TupleSA{Key: "nested", Value: wrap(wk, history(hb, keys, vals))})
+		c.Eval(1)
+		c.Feature("nested-equal", wk, ha, hb)
+		var eq bool
+		if pi := run.Guard(func() { eq = ordered.Equal(a, b) }); pi != nil {
+			c.Violation(id, map[string]any{"what": "Equal panicked on maps holding ordered maps inside containers: " + pi.Value, "stack": pi.Stack})
+			return
+		}
+		if !eq {
+			ja, _ := json.Marshal(a)
+			jb, _ := json.Marshal(b)
+			c.Violation(id, map[string]any{"what": fmt.Sprintf("Equal is false for two maps whose keys, values and order all match; they differ only in how the ordered map nested inside a container (wrapping %d) was built (histories %d and %d)", wk, ha, hb), "a": string(ja), "b": string(jb)})
+			return
+		}
+		// an unequal twin: one inner value, one inner key, or the inner order differs
+		ks2, vs2 := append([]string(nil), keys...), append([]any(nil), vals...)
+		switch x := r.IntN(3); {
+		case x == 0:
+			vs2[r.IntN(n)] = "changed"
+		case x == 1 || n < 2:
+			ks2[r.IntN(n)] = "other-key"
+		default:
+			ks2[0], ks2[n-1] = ks2[n-1], ks2[0]
+			vs2[0], vs2[n-1] = vs2[n-1], vs2[0]
+		}
+		d := ordered.MapFromItems(ordered.TupleSA{Key: "first", Value: 1}, ordered.TupleSA{Key: "nested", Value: wrap(wk, history(hb, ks2, vs2))})
+		if pi := run.Guard(func() { eq = ordered.Equal(a, d) }); pi != nil {
+			c.Violation(id, map[string]any{"what": "Equal panicked: " + pi.Value, "stack": pi.Stack})
+			return
+		}
+		if eq {
+			ja, _ := json.Marshal(a)
+			jd, _ := json.Marshal(d)
+			c.Violation(id, map[string]any{"what": "Equal is true although a key, a value or the order differs in the ordered map nested inside a container", "a": string(ja), "b": string(jd)})
+			return
+		}
+		c.Count("nested_equal_pairs", 2)
 	})
 }
